@@ -1,18 +1,4 @@
 // ---------------- assumed environment: errors, the ghost output sink, Renderable/Runtime (stand-ins; trusted) ----------------
-#[verifier::external_body]
-pub struct Error { _p: u8 }
-pub type Result<T> = core::result::Result<T, Error>;
-#[verifier::external_body]
-pub struct IoError { _p: u8 }
-#[verifier::external_body]
-pub struct KString { _p: u8 }
-impl From<String> for KString {
-    #[verifier::external_body]
-    fn from(s: String) -> (r: KString) { unimplemented!() }
-}
-#[verifier::external_body]
-pub fn opaque_string() -> String { unimplemented!() }
-
 /// identity of a renderable node (what a `Child` event names)
 #[verifier::external_body]
 pub struct RId { _p: u8 }
@@ -69,19 +55,6 @@ impl<T> KeyedResult<T> {
     #[verifier::external_body]
     pub fn value_with<F: FnOnce() -> KString>(self, value: F) -> (r: Result<T>)
         ensures r is Ok == self.r is Ok, (r matches Ok(v) ==> self.r matches Ok(w) && v == w) { unimplemented!() }
-}
-
-/// per-render registers (interior mutability in the real code: effects are NOT modelled, see DESIGN C18)
-pub trait RegisterDefault: Sized { }
-#[verifier::external_body]
-pub struct Registers { _p: u8 }
-impl Registers {
-    #[verifier::external_body]
-    pub fn get_mut<T: RegisterDefault>(&self) -> (r: T) { unimplemented!() }
-}
-
-pub trait Runtime {
-    fn registers(&self) -> &Registers;
 }
 
 /// Contract of every `Renderable::render_to` as its *caller* sees it (C10):
